@@ -54,7 +54,7 @@ class Lattice(object):
         for u in reversed(ubs):
             if all(u == v or v in self.ascendants(u) for v in ubs):
                 return u
-        return None
+        raise ValueError('no least upper bound satisfies the predicate')
     def meet(self, *nodes, predicate=None):
         lbs = [n for n in self._ts if all(n == m or n in self.descendants(m) for m in nodes)]
         if predicate is not None:
@@ -62,7 +62,7 @@ class Lattice(object):
         for u in lbs:
             if all(u == v or v in self.descendants(u) for v in lbs):
                 return u
-        return None
+        raise ValueError('no greatest lower bound satisfies the predicate')
     def chains(self):
         return nx.all_simple_paths(self._lattice, self.top, self.bottom)
 
